@@ -122,7 +122,9 @@ def mol_set(tier):
     extra = ['C1CC1', 'C1CCC1', 'C1CCCC1', 'C1CCCCC1', 'C1CCCCCC1', 'C1CC2CCC1C2', 'C1CCC2CCCCC2C1', 'c1ccccc1', 'c1ccncc1', 'c1cc[nH]c1', 'c1ccc2ccccc2c1', 'c1ccccc1-c1ccccc1',
              'C1CC1C1CC1', 'C1CCCCC1C1CCCCC1', '[NH4+]', 'C[N+](C)(C)C', 'CC(=O)[O-]', '[Na+].[Cl-]', 'C#N', 'C=C=C', 'CC#CC', 'N#CC=O', '[13CH4]', 'C[2H]', '[Fe]', 'Cl[Pt](Cl)(N)N',
              'O=S(=O)(O)O', 'OP(O)(O)=O', 'FC(F)(F)C(Cl)(Cl)Br', 'C1=CC=CC=C1', 'O=C1C=CC(=O)C=C1', 'C1CC11CC1', 'CN1C=NC2=C1C(=O)N(C)C(=O)N2C', 'C[Si](C)(C)C', 'B(O)(O)C', 'C~[Fe]', 'C[Sn](C)(C)C', 'C[Se]C', 'Cl[Co]Cl', 'Br[Cu]', 'c1c[nH]ccc1=O', '[nH]1ccccc1=O', 'O=c1cc[nH]cc1', 'c12ccccc1occc2=O', 'S=c1cccc[nH]1', 'O=c1ccoc2ccccc12',
-             'C1CC1~[Cu]', '[CH3]', 'C[O]', 'CC(C)(C)C', 'OC(O)(O)O', 'C1CCC2(CC1)CCCC2']
+             'C1CC1~[Cu]', '[CH3]', 'C[O]', 'CC(C)(C)C', 'OC(O)(O)O', 'C1CCC2(CC1)CCCC2',
+             # atoms with three / four double bonds, a triple and a double bond (either one first in the bond order)
+             '[O-]Cl(=O)(=O)=O', 'O=S(=O)=O', 'O=[Os](=O)(=O)=O', 'CS(#N)=O', 'O=S(C)#N', 'N#S(C)=O', '[O-][Mn](=O)(=O)=O', 'O=[Xe](=O)(=O)=O', 'O=I(=O)(=O)O', 'FS(F)(F)(F)(F)F', 'O=P(=O)O']
     extra += inputs.organometallics()[::5]
     extra += M.corpus(stride=40 if tier == 'quick' else 8)
     for s in extra:
